@@ -28,7 +28,8 @@ ASSUMPTIONS = [
     "times are multiples of MIN_TD, so x+MIN_TD is the immediate successor of x",
 ]
 DECIDED = ["a slot/cache table", "b seeding after start", "c fold during scan", "d run loop table", "e advance_simulation term",
-           "f wall clock does not reach simulation time", "g node scheduler re-arm", "i validate_times"]
+           "f wall clock does not reach simulation time", "g node scheduler re-arm", "i validate_times",
+           'l a failed child cycle is not resumed (= C01.d2)', "m try_except pulls the child's schedule on the failing exit too (= C15.c)"]
 NOT_DECIDED = ["that user nodes request the times they should", "wall-clock now() values", "whole-run trace equality"]
 
 HDR = r"graph_header\(.*\)"
